@@ -1716,6 +1716,41 @@ def annotate_with_constraint(value: Value, constraint: AbstractConstraint) -> Va
     return annotate_value(value, [ConstraintExtension(constraint)])
 
 
+@dataclass(frozen=True)
+class AlternativesConstraint(AbstractConstraint):
+    """The constraints carried by the members of a union value.
+
+    At run time the value is exactly one of the members. If it is truthy, the
+    constraint of that member holds, so one of the constraints holds; if it is
+    falsy, the inverted constraint of that member holds, so one of the inverted
+    constraints holds. Unlike :class:`OrConstraint`, the inverse is therefore
+    again a disjunction: nothing is known about the members the value is not.
+    """
+
+    constraints: tuple[AbstractConstraint, ...]
+
+    def apply(self) -> Iterable["Constraint"]:
+        return OrConstraint(self.constraints).apply()
+
+    def invert(self) -> "AlternativesConstraint":
+        return AlternativesConstraint(
+            tuple(cons.invert() for cons in self.constraints)
+        )
+
+    @classmethod
+    def make(cls, constraints: Iterable[AbstractConstraint]) -> AbstractConstraint:
+        final = list(constraints)
+        if all(cons is NULL_CONSTRAINT for cons in final):
+            return NULL_CONSTRAINT
+        if len(final) == 1:
+            return final[0]
+        return cls(tuple(final))
+
+    def __str__(self) -> str:
+        children = " | ".join(map(str, self.constraints))
+        return f"({children})"
+
+
 def extract_constraints(value: Value) -> AbstractConstraint:
     if isinstance(value, AnnotatedValue):
         extensions = list(value.get_metadata_of_type(ConstraintExtension))
@@ -1729,5 +1764,5 @@ def extract_constraints(value: Value) -> AbstractConstraint:
         constraints = [extract_constraints(subval) for subval in value.vals]
         if not constraints:
             return NULL_CONSTRAINT
-        return OrConstraint.make(constraints)
+        return AlternativesConstraint.make(constraints)
     return NULL_CONSTRAINT
